@@ -41,6 +41,7 @@ type FnExec struct {
 	topHeld  []heldLock
 	acqState *State
 	retPos   []token.Pos
+	callCount map[string]int
 }
 
 func (fx *FnExec) analyzeCFG() {
@@ -778,6 +779,18 @@ func (fx *FnExec) execInstr(st *State, in ssa.Instruction) {
 			leaves = fx.asLeaves(st, vv, loc.T)
 		}
 		e.storeLoc(st, loc, leaves)
+		fx.checkOnAssign(st, in, loc)
+		if sl, isSlice := loc.T.Underlying().(*types.Slice); isSlice && loc.Kind == LField && fx.fieldClass(loc) == "immutable" && len(leaves) == 3 {
+			// snapshot the contents into the immutable-content heap
+			arr := leaves[0]
+			for i := range e.fl.leaves(sl.Elem()) {
+				src := e.heapGet(st, e.keyElemOf(sl.Elem(), i, arr))
+				e.immArr[arr] = true
+				ki := e.keyElemOf(sl.Elem(), i, arr)
+				e.heapWrite(st, ki, store(e.heapGet(st, ki), arr, sel(src, arr)), arr)
+				delete(e.immArr, arr)
+			}
+		}
 		fx.noteStoredMeta(st, loc, vv)
 	case *ssa.BinOp:
 		fx.execBinOp(st, in)
@@ -1030,6 +1043,10 @@ func (fx *FnExec) execUnOp(st *State, in *ssa.UnOp) {
 		v := &Val{L: leaves}
 		if loc.Kind == LField {
 			v.Origin = "field:" + typeKey(loc.S) + "." + loc.Path
+			if st0, isSlice := loc.T.Underlying().(*types.Slice); isSlice && fx.fieldClass(loc) == "immutable" && len(leaves) == 3 {
+				_ = st0
+				e.immArr[leaves[0]] = true
+			}
 		}
 		// function values: remember origin for dyn contracts
 		if _, ok := in.Type().Underlying().(*types.Signature); ok {
@@ -1654,4 +1671,46 @@ func (fx *FnExec) oldFor(st *State) *State {
 		return st.acq
 	}
 	return fx.old
+}
+
+// fieldClass returns the declared protection class of the (first) field of a location ("" if none).
+func (fx *FnExec) fieldClass(loc *Loc) string {
+	n, ok := loc.S.(*types.Named)
+	if !ok || n.Obj().Pkg() == nil {
+		return ""
+	}
+	first := loc.Path
+	if i := strings.Index(first, "."); i >= 0 {
+		first = first[:i]
+	}
+	if p := fx.e.w.spec.Protects[n.Obj().Pkg().Path()+"."+n.Obj().Name()+"."+first]; p != nil {
+		return p.Class
+	}
+	return ""
+}
+
+// checkOnAssign: `onassign <local> asserts e`: e is proved right after the first assignment to the named local of the
+// function under contract (the rule by which a value is chosen, stated where it is chosen).
+func (fx *FnExec) checkOnAssign(st *State, in *ssa.Store, loc *Loc) {
+	e := fx.e
+	if fx.con == nil || len(fx.con.OnAssign) == 0 || e.suppress > 0 {
+		return
+	}
+	a, ok := in.Addr.(*ssa.Alloc)
+	if !ok || a.Comment == "" {
+		return
+	}
+	if _, isParamSpill := in.Val.(*ssa.Parameter); isParamSpill {
+		return
+	}
+	for _, oa := range fx.con.OnAssign {
+		if oa.Callee != a.Comment || oa.seen {
+			continue
+		}
+		oa.seen = true
+		env := fx.specEnv(st, fx.oldFor(st), nil)
+		for i, nt := range env.evalSplit(oa.C.Expr) {
+			e.addObl("contract", fmt.Sprintf("onassign:%s%s%s", a.Comment, oa.C.labelStr(), partName(nt, i)), fx.clauseTags(oa.C), st, nt.term, in.Pos())
+		}
+	}
 }
